@@ -24,12 +24,13 @@ ASSUMPTIONS = ["sequentially consistent interleavings that switch only at pthrea
 RULE = ("programs of 1..6 thread slots (manual/managed, nested launches, 0..4 at-exit registrations, joins, count reads, "
         "join-all racing completions, timeouts with virtual time, injected pthread_create failures, launches with a "
         "cpu_id (valid / not honourable: first create fails with EINVAL and the library retries unpinned / retry fails too), "
-        "named threads, pthread_create as two schedule points (create / return to the creator)) x schedules "
+        "named threads, pthread_create as two schedule points (create / return to the creator), aws_thread_call_once on "
+        "shared flags whose callbacks register at-exit callbacks, repeated aws_common_library_init) x schedules "
         "(choice lists from the PRNG, spurious wake-ups, and every schedule of small programs up to a preemption bound, "
         "enumerated on the model); non-trivial = at least two threads of which one is managed")
 NOT_PROVED = []
 
-ACT = re.compile(r"^([LPQRJDACWTYS])(\d*)(n?)$")   # trailing n on a launch: the thread gets a name
+ACT = re.compile(r"^([LPQRJDACWTYSOI])(\d*)(n?)$")   # trailing n on a launch: the thread gets a name
 LAUNCH = "LPQR"   # L: cpu_id -1; P: cpu 0; Q: cpu 1000, first pthread_create fails EINVAL, retried unpinned; R: retry fails too
 
 
@@ -50,6 +51,10 @@ def gen_program(rng, nmax=6, allow_time=True):
         if not managed[k] and rng.random() < 0.12:
             detached.add(k)
     bodies = {}
+    once_flags = {}
+    if rng.random() < 0.4:
+        for fid in rng.sample(range(0, 4), rng.choice([1, 1, 2])):
+            once_flags[fid] = rng.sample(range(10, 20), rng.choice([0, 1, 1, 2]))
     for k in range(0, n + 1):
         acts = []
         ncb = rng.choice([0, 0, 1, 1, 2, 3, 4]) if k else (1 if rng.random() < 0.1 else 0)
@@ -58,6 +63,14 @@ def gen_program(rng, nmax=6, allow_time=True):
         ltok = {c: f"{lop[c]}{c}" + ("n" if rng.random() < 0.35 else "") for c in children[k]}
         items = [f"A{c}" for c in cbs] + [ltok[c] for c in children[k]]
         items += ["Y"] * rng.choice([0, 0, 1, 1, 2, 3])
+        # aws_thread_call_once on shared flags (flags whose callback registers at-exit callbacks are only used
+        # by aws threads: on a non-aws thread the library's temporary wrapper is uninitialised there) and
+        # repeated aws_common_library_init
+        for fid in once_flags:
+            if (k != 0 or not once_flags[fid]) and rng.random() < 0.45:
+                items += [f"O{fid}"] * rng.choice([1, 1, 2])
+        if rng.random() < 0.3:
+            items += ["I"] * rng.choice([1, 1, 2])
         items += ["C"] * rng.choice([0, 0, 0, 1, 2])
         if use_time and k and rng.random() < 0.5:
             items.append(f"S{rng.choice([1, 100, 400, 1500])}")
@@ -87,7 +100,8 @@ def gen_program(rng, nmax=6, allow_time=True):
                 items.append("C")
         acts = items
         bodies[k] = acts
-    ops = [f"slot {k} {'M' if managed[k] else 'U'} " + " ".join(bodies[k]) for k in range(1, n + 1)]
+    ops = [("once %d " % fid + " ".join(map(str, regs))).rstrip() for fid, regs in sorted(once_flags.items())]
+    ops += [f"slot {k} {'M' if managed[k] else 'U'} " + " ".join(bodies[k]) for k in range(1, n + 1)]
     ops = [o.rstrip() for o in ops]
     ops.append(("main " + " ".join(bodies[0])).rstrip())
     nl = sum(1 for k in bodies for a in bodies[k] if a[0] in LAUNCH)
@@ -148,6 +162,13 @@ SMALL = [
     # the creator is preempted between pthread_create and its return while the new thread finishes and is
     # joined by its own child (thread-id hand-over window)
     ("create-window", ["slot 1 M L2", "slot 2 M", "main L1 W"], (2, 70, 500), (3, 90, 8000)),
+    # at-exit registrations made inside a call_once callback; the flag is shared by two threads
+    ("once-atexit", ["once 1 11", "slot 1 M A1 O1 A2", "slot 2 U O1 O1 A3", "main L1 L2 J2 W"], (1, 90, 300), (2, 110, 5000)),
+    ("once-two-regs", ["once 0 12 13", "slot 1 M O0 A1", "slot 2 M A2 O0", "main L1 L2 W"], (1, 90, 300), (2, 110, 5000)),
+    # the library is initialised again (as every dependent library does) while a finished managed thread's wrapper
+    # is parked in the pending-join list
+    ("reinit-main", ["slot 1 M", "slot 2 M Y", "main L1 L2 I W C"], (2, 80, 500), (3, 100, 8000)),
+    ("reinit-thread", ["slot 1 M", "slot 2 M Y I Y", "slot 3 U I", "main L1 L2 L3 J3 W"], (1, 100, 400), (2, 120, 8000)),
     ("create-window-3", ["slot 1 M L2n", "slot 2 M L3", "slot 3 M", "main L1n W"], (1, 100, 400), (2, 120, 8000)),
 ]
 
@@ -315,7 +336,7 @@ def nontrivial(case):
 
 def distribution(cases, c_out):
     d = {"threads": {}, "managed_slots": 0, "manual_slots": 0, "atexit_regs": 0, "joinall_calls": 0, "timeouts_cfg": 0,
-         "create_fail": 0, "named_launch": 0, "pinned_launch": 0, "pinned_retry": 0, "pinned_retry_fails": 0, "joinall_ok": 0, "joinall_err": 0, "sync_events": 0, "spurious": 0, "waits": 0, "exhaustive_scheds": 0}
+         "create_fail": 0, "call_once": 0, "once_flags_with_atexit": 0, "lib_reinit": 0, "named_launch": 0, "pinned_launch": 0, "pinned_retry": 0, "pinned_retry_fails": 0, "joinall_ok": 0, "joinall_err": 0, "sync_events": 0, "spurious": 0, "waits": 0, "exhaustive_scheds": 0}
     for i, c in enumerate(cases):
         n = c.tags.get("n", 0)
         d["threads"][str(n)] = d["threads"].get(str(n), 0) + 1
@@ -330,9 +351,13 @@ def distribution(cases, c_out):
                 d["joinall_calls"] += sum(1 for a in t if a == "W")
                 d["timeouts_cfg"] += sum(1 for a in t if a.startswith("T") and a != "T0")
                 d["named_launch"] += sum(1 for a in t[1:] if a[0] in LAUNCH and a.endswith("n"))
+                d["call_once"] += sum(1 for a in t[1:] if a[0] == "O" and a[1:].isdigit())
+                d["lib_reinit"] += sum(1 for a in t[1:] if a == "I")
                 d["pinned_launch"] += sum(1 for a in t[1:] if a[0] in "PQR" and a[1:].rstrip("n").isdigit())
                 d["pinned_retry"] += sum(1 for a in t[1:] if a[0] in "QR" and a[1:].rstrip("n").isdigit())
                 d["pinned_retry_fails"] += sum(1 for a in t[1:] if a[0] == "R" and a[1:].rstrip("n").isdigit())
+            if t[0] == "once" and len(t) > 2:
+                d["once_flags_with_atexit"] += 1
             if t[0] == "fail":
                 d["create_fail"] += 1
         for l in c_out.get(i, []):
